@@ -154,7 +154,7 @@ Proof.
 Qed.
 
 Section Agree.
-  Variables (g : list node) (inv : N) (mc fixed : bool).
+  Variables (g : list node) (inv : N) (mc : bool) (fixed : config).
   Variable init : list task.
   Notation n0 := (List.length init).
   Hypothesis Hwf : wf_dag g.
